@@ -28,6 +28,9 @@ func runCase(r *h.Run, c caseT) {
 		// the Upgrader gives transferred connections a different executor in one-shot mode
 		e.cls = "transferred-oneshot"
 	}
+	if e.end == "server-closeandclean" && c.Path == "mixed" {
+		e.end = "server-close"
+	}
 	if e.end == "engine-stop" && (c.Path == "std-readloop" || c.Path == "std-manual-readloop") {
 		e.end = "server-close" // the engine does not own these connections
 	}
@@ -118,6 +121,9 @@ func runCase(r *h.Run, c caseT) {
 		case <-cs.endSeen:
 		default:
 			continue // the connection ended before the end marker: safety clauses only
+		}
+		if cs.streamBad {
+			continue // reported; the rest of that stream was not interpreted
 		}
 		// the end marker arrived: everything written before it with a nil error must have arrived
 		rec.mu.Lock()
